@@ -169,6 +169,27 @@ def texts_for(v, rnd, quick):
     for m in msgs:
         for fg in (True, False):
             items.append(("message", m, fg))
+    # structures in which a parent lists one segment name at two places (ROL in ADT_A01, PRT / NTE in the *_ORDER groups):
+    # every child present, in structure order - both levels encode it alike
+    from . import groups
+
+    def has_dup(kids):
+        names_ = [k["name"] for k in kids]
+        if len(set(names_)) != len(names_):
+            return True
+        return any(k["kind"] == "GRP" and has_dup(k["kids"]) for k in kids)
+    dups = []
+    for sid in T.message_names(v):
+        try:
+            st = T.structure(v, sid)
+        except Exception:
+            continue
+        if has_dup(st["kids"]) and not any(n[1] == "SEG" and len(n[0]) != 3 for n in groups.flatten_structure(st)):
+            dups.append((sid, st))
+    for sid, st in rnd.sample(dups, min(len(dups), 3 if quick else 40)):
+        names_ = groups.gen_all(st["kids"])
+        text = "\r".join([groups.msh(v, sid)] + [groups.seg_text(n, i + 1, v) for i, n in enumerate(names_[1:])])
+        items.append(("message", text, True))
     return items
 
 
